@@ -236,7 +236,7 @@ func c20Convert(t *c20Type, src reflect.Value) (dst reflect.Value, err error, pa
 }
 
 type c20Stats struct {
-	ok, refuse, chains, decodeFrom, codecSkip, usedDst int
+	ok, refuse, chains, decodeFrom, codecSkip, usedDst, call2, call2Skip int
 }
 
 var c20Used = map[string]reflect.Value{}
@@ -413,6 +413,8 @@ func c20One(j *journal, v *c20Vec, raw json.RawMessage, st *c20Stats) {
 	} else if k, d := v.T.diff(v.Out, dst2.Elem(), "decoded"); d != "" {
 		j.fail("decodefrom-differs/"+k, d, raw)
 	}
+	// the same through bus.Proxy.Call2 (c20call2.go)
+	c20Call2(j, v, raw, data, top, st)
 }
 
 func c20Chain(j *journal, v *c20Vec, raw json.RawMessage, st *c20Stats) {
@@ -457,7 +459,8 @@ func c20Child(args []string) {
 	j.snapshot = func() childSummary {
 		sum.Distinct = len(pairs)
 		for k, n := range map[string]int{"compatible_vectors": st.ok, "clash_vectors": st.refuse, "chains": st.chains,
-			"decodefrom_vectors": st.decodeFrom, "decodefrom_skipped_codec_precondition": st.codecSkip} {
+			"decodefrom_vectors": st.decodeFrom, "decodefrom_skipped_codec_precondition": st.codecSkip,
+			"call2_vectors": st.call2, "call2_skipped_codec_precondition": st.call2Skip} {
 			sum.Extra[k] = float64(n)
 		}
 		return sum
